@@ -55,6 +55,14 @@ CHECKS = {
     note="State = tuple of member fingerprints (sound for this property: it only observes width and denotation). Widening simplify may over-approximate the object it is applied to. "
          "Trusted: amc/ref/bv.py walker.",
     design="DESIGN.md section 3, C13"),
+ "C14": dict(
+    category="model_checking",
+    technique="bounded exhaustive enumeration of synthesised ELF images (class x byte order x segment/section/symbol sets x table placements) and generated PE/Mach-O/HEX/SREC inputs, read back by independent struct-based readers; boundary-address queries; all single-nibble record corruptions",
+    text="Every image of the ELF lattice is written by an independent struct-based writer and parsed by amoco: every Ehdr/Phdr/Shdr/Sym field, section names, functions/variables tables, entry point, readsegment/readsection contents, "
+         "getfileoffset and data() at every segment/section boundary +-1. Shipped ELF/PE samples are cross-read field by field; generated PE32/PE32+ and Mach-O 32/64 header sets with locate/getdata/getfileoffset/getinfo at boundaries; "
+         "HEX/SREC streams over all record types, data lengths, boundary addresses and extended-address sequences; every single-nibble corruption of a record must be rejected.",
+    note="Structurally valid inputs only (malformed inputs are C20). Trusted: amc/ref/elfio.py and the struct readers in c14.py, written from the format specifications.",
+    design="DESIGN.md section 3, C14"),
  "C16": dict(
     category="model_checking",
     technique="bounded exhaustive enumeration of structure definitions (<=3/4 fields over the field-kind alphabet, packed/natural, pointer size 32/64, unions, trailing variable-length fields) against a C layout calculator validated with gcc and python struct",
